@@ -222,6 +222,25 @@ CLAIMED = {
         technique="TLA+ exact-lattice spec + TLC exhaustive grid (polynomial identity argument), replay into the implementation",
         ref="4 and 5/C04",
     ),
+    "C05": dict(
+        level="model_checking",
+        text="JointKernel.tla: a joint sees its subsystems through joint points and joint bases X=(r1,r2,E1,E2) and their motion; the "
+             "position-level constraint of every joint type (full/projected translation, rotation pairs, fixed distance) is a polynomial in X, "
+             "and the velocity level, acceleration level, W_g, g_q, g_dot_q, g_dot_u and Wla_g_q are defined by exact difference stencils along "
+             "the flow (no calculus); TLC checks these definitions against the textbook closed forms, the degree bounds and linearity on an "
+             "integer lattice. Every joint type x axis x 11 subsystem pairings (origin, translating/rotating frames, rigid bodies, point masses, "
+             "nodal cross-sections of quaternion-interpolated rods of degree 1 and 2) x placement is assembled from the real classes and "
+             "evaluated at lattice states that violate the joint; X, motion and derivative directions come from the subsystems' own "
+             "kinematic routines, and TLC recomputes every level of every record from the kernel and names the routine that differs. g(t0,q0)=0 "
+             "is checked on every assembled joint.",
+        note="Orientations are octahedral (integer rotation matrices) realised by non-unit integer quaternions; positions, offsets, velocities, "
+             "accelerations and multipliers are small integers, so every recorded quantity is an exact integer (derivative directions after "
+             "scaling by a power of |P|^2). 344 records in the quick tier, ~2000 in the thorough tier. Rod cross-sections only at nodal xi of the "
+             "quaternion-interpolated family (non-nodal xi, SE(3) and R12 rods are not covered). The subsystems' kinematic routines are decided "
+             "separately by C04. A corrupted record must be rejected (self-test).",
+        technique="TLA+ exact-arithmetic kernel spec model-checked by TLC + TLC trace validation of records taken from the real joints",
+        ref="5/C05",
+    ),
 }
 
 NOT_APPLICABLE = {
